@@ -62,7 +62,9 @@ def _sha_loops(fn, helper, blk):
         {"function": fn, "anchor": "for (cnt = 0; cnt < (size_t) 16 + (size_t) result[0]; ++cnt)",
          "invariant": "cnt <= 271 && " + st % 1, "decreases": "271 - cnt"},
         {"function": fn, "anchor": "for (cnt = 0; cnt < rounds; ++cnt)",
-         "invariant": "cnt <= rounds && " + rounds_ok + " && " + st % 0 + " && " + _last_eq("xv_sha_last", "result", dig),
+         # before the first round the last digest computed is S (in s_bytes), afterwards it is `result`
+         "invariant": "cnt <= rounds && rounds >= 1000 && " + rounds_ok + " && " + st % 0
+                      + " && (cnt == 0 || (" + _last_eq("xv_sha_last", "result", dig) + "))",
          "decreases": "rounds - cnt"},
     ]
 
@@ -118,11 +120,11 @@ JOBS += [_method("bsdicrypt", "M_bsdicrypt", [], ["crypt_bsdicrypt_rn", "des_gen
                  extra=dict(DES_EXTRA, wip=True))]
 
 # crypt_yescrypt_rn: the $y$/$7$ wrapper with the yescrypt core replaced by assumed contracts
-JOBS += [{"name": "yescrypt_wrapper", "props": ["C04", "C05", "C06", "C15", "C19"],
+JOBS += [{"name": "yescrypt_wrapper", "props": ["C01", "C04", "C05", "C06", "C15", "C19"],
           "functions": ["crypt_yescrypt_rn"],
           "harness": "harness/yescrypt_wrap.c", "verif_src": ["models/strings.c"], "defs": ["XV_STR_SCAN=385", "XV_STRCPY_MAX=384"],
           "unwind": 10, "bounds": {"SPAN": 64, "STR": 385, "SPANEXACT": 24, "STRCPY": 384}, "mem_gb": 4, "timeout": 600,
-          "no_native": True, "wip": True,
+          "no_native": True,
           "bound": "strlen (setting) < 512",
           "assumptions": ["assumed (not enforced) contracts of yescrypt_init_local, yescrypt_r, yescrypt_free_local: see harness/yescrypt_wrap.c"]}]
 
@@ -131,5 +133,5 @@ SHA1_LOOPS = [
      "invariant": "i >= 1 && (i <= iterations || i == 1) && xv_hmac_calls >= 1", "decreases": "iterations - i"},
 ]
 SHA1_EXTRA = {"late_src": ["models/snprintf.c"], "timeout": 1200, "mem_gb": 10, "unwind": 10, "wip": True}
-JOBS += [_method("sha1crypt", "M_sha1crypt", SHA1_LOOPS, ["crypt_sha1crypt_rn", "to64"], extra=dict(SHA1_EXTRA)),
+JOBS += [_method("sha1crypt", "M_sha1crypt", SHA1_LOOPS, ["crypt_sha1crypt_rn", "to64"], extra=dict(SHA1_EXTRA, set_cap=128)),
          _method("sha1crypt", "M_sha1crypt", SHA1_LOOPS, ["crypt_sha1crypt_rn", "to64"], weak=True, extra=dict(SHA1_EXTRA))]
